@@ -142,6 +142,10 @@ RESP_TEMPLATES = {
     "eof-body": b"HTTP/1.0 200 OK\r\nX: y\r\n\r\nbody until eof",
     "chunked-lax": b"HTTP/1.1 200 OK\r\nTransfer-Encoding: chunked\r\n\r\n 3 \r\nabc\r\n0\r\n\r\n",
     "long-trailer": b"HTTP/1.1 200 OK\r\nTransfer-Encoding: chunked\r\n\r\n1\r\na\r\n0\r\nX-Trailer-Field: 0123456789abcdef012345\r\n\r\n",
+    # a content-coded body (raw deflate of b"hello hello hello hello"; zlib runs natively on these concrete bytes):
+    # what the application can read must not depend on the cuts either
+    "chunked-deflate-raw": b"HTTP/1.1 200 OK\r\nContent-Encoding: deflate\r\nTransfer-Encoding: chunked\r\n\r\n"
+                           b"a\r\n\xcbH\xcd\xc9\xc9W\xc8@'\x01\r\n0\r\n\r\n",
 }
 
 
@@ -193,8 +197,8 @@ def jobs(tier):
                             params=dict(kind=kind, name=name, h=0, ncuts=2), limits=lim))
             out.append(dict(name=f"{kind}-{name}-bytewise", func="template",
                             params=dict(kind=kind, name=name, h=0, bytewise=True), limits=lim))
-            if quick and name in ("connect", "close", "eof-body", "long-trailer", "long-chunk-ext"):
-                continue
+            if name == "chunked-deflate-raw" or (quick and name in ("connect", "close", "eof-body", "long-trailer", "long-chunk-ext")):
+                continue  # (windows inside compressed bytes only produce undecodable streams)
             for lo in range(0, len(t), span):
                 out.append(dict(name=f"{kind}-{name}-w1-{lo}", func="template",
                                 params=dict(kind=kind, name=name, lo=lo, hi=min(lo + span, len(t)), h=1, ncuts=1,
